@@ -4,8 +4,8 @@ cd "$(dirname "$0")" || exit 2
 {
   echo "-Q . CSS"
   echo "-arg -w -arg -notation-overridden,-deprecated-hint-without-locality,-deprecated-instance-without-locality"
-  find Lib Model Proofs Props -name '*.v' | sort
+  find Lib Spec Model Proofs Props -name '*.v' | sort
 } > _CoqProject.new
 if ! cmp -s _CoqProject.new _CoqProject 2>/dev/null; then mv _CoqProject.new _CoqProject; coq_makefile -f _CoqProject -o Makefile >/dev/null; else rm _CoqProject.new; fi
 [ -f Makefile ] || coq_makefile -f _CoqProject -o Makefile >/dev/null
-exec timeout ${COQ_BUILD_TIMEOUT:-3000} make -j${COQ_JOBS:-16} "$@"
+exec timeout ${COQ_BUILD_TIMEOUT:-1500} make -j${COQ_JOBS:-16} "$@"
